@@ -152,11 +152,37 @@ func (c asmCase) String() string {
 	return strings.Join(ss, ";")
 }
 
+// targets: half of them are windows into a larger array (len = capacity, spare Go capacity behind it), as when assembling
+// into a ROM image; nothing may ever be written outside the window
+var targetBacking [][]byte
+var targetWindows [][2]int
+
 func mkTarget(cap int) []byte {
 	if cap < 0 {
 		return nil
 	}
-	return make([]byte, cap)
+	if cap%3 == 0 {
+		return make([]byte, cap)
+	}
+	big := make([]byte, cap+24)
+	targetBacking = append(targetBacking, big)
+	targetWindows = append(targetWindows, [2]int{8, 8 + cap})
+	return big[8 : 8+cap]
+}
+
+// targetsIntact: no byte outside any window was written since the last call
+func targetsIntact() bool {
+	ok := true
+	for i, big := range targetBacking {
+		w := targetWindows[i]
+		for j, b := range big {
+			if (j < w[0] || j >= w[1]) && b != 0 {
+				ok = false
+			}
+		}
+	}
+	targetBacking, targetWindows = nil, nil
+	return ok
 }
 
 // ---------------------------------------------------------------------------------------------------------------
@@ -307,6 +333,7 @@ func safe(f func()) (panicked bool) {
 
 // execAsm runs a history on the real code.  It mirrors the protocol of AsmDrv.run in ModelDrv.lean.
 func execAsm(c asmCase) asmRun {
+	targetsIntact() // reset the registry
 	names := labelNames(c)
 	orig := &emState{e: asm.NewEmitter(mkTarget(c.cap), c.text), labels: map[string]uint32{}}
 	var clone *emState
@@ -535,6 +562,9 @@ func execAsm(c asmCase) asmRun {
 		}
 		run.out = append(run.out, res)
 	}
+	if !targetsIntact() {
+		complain("C19", "bytes outside the target buffer were written (the target was a window into a larger array)")
+	}
 	return run
 }
 
@@ -745,6 +775,21 @@ func branchDistanceCases(ms []asmMethod) []asmCase {
 			}
 		}
 	}
+	// far distances: 16-bit and wider wrap-arounds of the displacement arithmetic must still be rejected
+	for _, gap := range []int{32766, 32767, 32768, 65405, 65406, 65407, 65408, 65409, 65500, 65533, 65534, 65535, 65536, 65540, 131071} {
+		for _, fwd := range []bool{true, false} {
+			var ops []asmOp
+			ops = append(ops, asmOp{kind: 'S', addr: 0x010000}) // bank start: distances up to 65535 stay inside one bank
+			pad := make([]byte, gap)
+			if fwd {
+				ops = append(ops, asmOp{kind: 'I', m: bne, label: "t"}, asmOp{kind: 'B', data: pad}, asmOp{kind: 'L', label: "t"}, asmOp{kind: 'I', m: nop})
+			} else {
+				ops = append(ops, asmOp{kind: 'L', label: "t"}, asmOp{kind: 'B', data: pad}, asmOp{kind: 'I', m: bra, label: "t"})
+			}
+			ops = append(ops, asmOp{kind: 'Q'}, asmOp{kind: 'F'}, asmOp{kind: 'Q'})
+			cs = append(cs, asmCase{cap: gap + 64, text: false, ops: ops})
+		}
+	}
 	return cs
 }
 
@@ -952,7 +997,8 @@ func runAsm() {
 	rep.Evaluations = ops
 	rep.Distinct = int64(len(distinct))
 	rep.CountN("histories", int64(len(cases)))
-	rep.Rule = "random emitter histories over all instruction methods (by reflection), labels before/after/missing/redefined, data blocks of lengths 0,1,15,16,17,31,32,33,48,100.., comments, " +
+	rep.Rule = "directed branch distances 0..130 and 32766..131071 in both directions; target buffers: plain and windows into a larger array (guarded); label names of 2..21 characters; " +
+		"random emitter histories over all instruction methods (by reflection), labels before/after/missing/redefined, data blocks of lengths 0,1,15,16,17,31,32,33,48,100.., comments, " +
 		"non-zero bases, REP/SEP masks, capacities from 0 to ample and nil targets, clone/append splits with observation of the original in between; directed branch distances 0,1,125..130 forward and backward; " +
 		"every history also runs on a dry-run twin and (for splits) as direct emission; listings parsed into (kind, address, bytes, text) records. " +
 		"evaluations = operations; distinct_nontrivial = distinct (op kind, arity, outcome) sequences"
